@@ -25,6 +25,31 @@ class Hang(BaseException):
     """A blocking call that would never return (peer silent, socket open)."""
 
 
+_EXCL = []              # names of known-finding predicates excluded from the current analysis (set by the worker)
+
+
+def excluded(module_globals, *args):
+    """True iff the arguments fall under a *listed, still reproducing* known finding of this condition.
+
+    A condition that has known findings carries `pre: not excluded(<its args>)`; everything else stays in scope, so a
+    different violation of the same condition is still found."""
+    for name in _EXCL:
+        if module_globals[name](*args):
+            return True
+    return False
+
+
+def pick(x, lo, hi):
+    """A *concrete* int equal to the (possibly symbolic) small selector x in lo..hi: forks once per value.
+
+    Slicing / indexing concrete sequences with a symbolic int makes CrossHair build symbolic containers (orders of
+    magnitude slower); selectors that are enumerated anyway are therefore made concrete up front."""
+    for v in range(lo, hi + 1):
+        if x == v:
+            return v
+    raise HarnessUnsupported('pick(%r) outside %d..%d' % (x, lo, hi))
+
+
 def deep(fact=True):
     """Mark a deep point of the harness; in reach mode reaching it with `fact` true ends the path as witness."""
     if _REACH and fact:
